@@ -134,7 +134,32 @@ pub fn unpack(m: &Model, ctx: &mut Ctx, rule: &str) {
         ("(0..255 | 300..400)", subtype(setop(range(0, 255, false), "Union", element(range(300, 400, false))), false), Some((0, 400)), false),
         ("(-128..127 | 65536)", subtype(setop(range(-128, 127, false), "Union", element(single(65536))), false), Some((-128, 65536)), false),
         ("(0..255 EXCEPT 5, ...)", subtype(setop(range(0, 255, false), "Except", element(single(5))), true), Some((0, 255)), true),
+        // the marker written behind a parenthesised element belongs to the element set, not to the element
+        ("((0..5), ...)", subtype(element(range(0, 5, false)), true), Some((0, 5)), true),
+        ("(0..5, ...)", subtype(element(range(0, 5, true)), false), Some((0, 5)), true),
     ];
+    // the same for a single value: `((5), ...)`
+    if let Some(g) = m.fns.iter().find(|g| g.name == "unpack_as_strict_value" && g.self_ty.as_deref() == Some("Constraint")) {
+        for (what, c) in [("((5), ...)", subtype(element(single(5)), true))] {
+            ctx.oblige(rule, what, true);
+            let mut env = Env::new();
+            env.insert("self".into(), c);
+            match ev.eval_fn_body(&g.block, &mut env) {
+                Ok(Val::Ctor(ok, p, _)) if ok == "Ok" => match p.first() {
+                    Some(Val::Tuple(t)) if t.len() == 2 => {
+                        if !matches!(t[1], Val::Bool(true)) {
+                            ctx.violate(rule, "extension-marker-lost:single-value", &g.file, g.line,
+                                &format!("INTEGER {} is unpacked as not extensible: a fixed-width type is then chosen for an extensible constraint", what));
+                        }
+                    }
+                    o => ctx.fail_closed(rule, &format!("[{}]: result {:?}", what, o.map(|x| x.show()))),
+                },
+                Ok(Val::Ctor(e, _, _)) if e == "Err" => {}
+                Ok(o) => ctx.fail_closed(rule, &format!("[{}]: result {}", what, o.show())),
+                Err(e) => ctx.fail_closed(rule, &format!("[{}]: {}", what, e)),
+            }
+        }
+    }
     for (what, c, hull, ext) in cases {
         ctx.oblige(rule, what, true);
         let mut env = Env::new();
